@@ -77,45 +77,105 @@ def _pred_mask(name):
     return _tables[key]
 
 
-_case_cache = {}
+def _case_masks(kind):
+    """(unchanged, image): code points that the mapping leaves alone / that can be results"""
+    key = 'casemask_' + kind
+    if key not in _tables:
+        ranges, special, single = _case_ranges(kind)
+        changed = Mask([(c, c) for c in single] + [(c, c) for c in special])
+        unchanged = changed.neg()
+        image = unchanged.union(Mask((c + d, c + d) for c, d in single.items()))
+        _tables[key] = (unchanged, image)
+    return _tables[key]
+
+
+_FORMULAS = {}
+
+
+def _case_formula(c, kind, dom=None):
+    key = (kind, c.get_id(), dom)
+    hit = _FORMULAS.get(key)
+    if hit is not None:
+        return hit[1]
+    f = _case_formula0(c, kind, dom)
+    if len(_FORMULAS) > 5000:
+        _FORMULAS.clear()
+    _FORMULAS[key] = (c, f)
+    return f
+
+
+def _case_formula0(c, kind, dom=None):
+    """z3 term for the single-character case mapping of term c (balanced ITE over the table;
+    table rows that cannot apply because of the known domain of c are left out)"""
+    ranges, _, _ = _case_ranges(kind)
+    if dom is not None:
+        ranges = [r for r in ranges if _meets_range(dom, r)]
+        if not ranges:
+            return c
+
+    def cond(r):
+        lo, hi, step, d = r
+        if lo == hi:
+            return c == lo
+        if step == 1:
+            return z3.And(c >= lo, c <= hi)
+        return z3.And(c >= lo, c <= hi, (c - lo) % 2 == 0)
+
+    def build(a, b):
+        if a == b:
+            return z3.If(cond(ranges[a]), c + ranges[a][3], c)
+        if b - a == 1 and False:
+            pass
+        mid = (a + b + 1) // 2
+        return z3.If(c < ranges[mid][0], build(a, mid - 1), build(mid, b))
+    return build(0, len(ranges) - 1)
+
+
+def _meets_range(dom, r):
+    lo, hi, step, d = r
+    for a, b in dom.iv:
+        if a > hi:
+            break
+        if b >= lo:
+            return True
+    return False
 
 
 def _case_char(c, kind):
-    """case-map one element (int or z3 term) -> int or z3 term; forks only for the code points
-    whose mapping has length != 1"""
+    """case-map one element (int or z3 term) -> int, z3 term or list (multi-character result).
+    Symbolic results are let-bound to a fresh variable (keeps terms small, makes the mapping
+    idempotent by construction and lets domain narrowing apply to the result)."""
     if isinstance(c, int):
         r = getattr(chr(c), kind)()
         if len(r) != 1:
             return [ord(x) for x in r]
         return ord(r)
-    ranges, special, _ = _case_ranges(kind)
     e = eng()
+    memo = e.memo
+    cid = c.get_id()
+    if cid in memo.setdefault(('caseimg', kind), {}):
+        return c                       # already a result of this mapping on this path
+    hit = memo.get((kind, cid))
+    if hit is not None and hit[0].eq(c):
+        return hit[1]
+    ranges, special, _ = _case_ranges(kind)
+    unchanged, image = _case_masks(kind)
+    dom = e.domain(c) if z3.is_const(c) else None
+    if dom is not None and dom.issubset(unchanged):
+        return c
     if special and e.branch(Mask.of(special).formula(c)):
         return [ord(x) for x in special[e.realise_int(c)]]
-    key = (c.get_id(), kind)
-    if key in _case_cache:
-        hit = _case_cache[key]
-        if hit[0].eq(c):
-            return hit[1]
-    # ASCII first, then the table
-    if kind == 'lower':
-        ascii_part = lambda rest: z3.If(z3.And(c >= 65, c <= 90), c + 32, rest)
+    l = e.fresh_int('lc', 0, MAXCP)
+    e.assume(l == _case_formula(c, kind, dom))
+    if dom is not None and dom.size() <= 256:
+        img = Mask.of(getattr(chr(v), kind)() for v in dom.values() if v not in special)
     else:
-        ascii_part = lambda rest: z3.If(z3.And(c >= 97, c <= 122), c - 32, rest)
-    expr = c
-    for lo, hi, step, d in reversed(ranges):
-        if hi < 128:
-            continue
-        if lo == hi:
-            cond = c == lo
-        elif step == 1:
-            cond = z3.And(c >= lo, c <= hi)
-        else:
-            cond = z3.And(c >= lo, c <= hi, (c - lo) % 2 == 0)
-        expr = z3.If(cond, c + d, expr)
-    expr = ascii_part(z3.If(c < 128, c, expr))
-    _case_cache[key] = (c, expr)
-    return expr
+        img = image
+    e._narrow({l.get_id(): (l, img)})
+    memo[(kind, cid)] = (c, l)
+    memo[('caseimg', kind)][l.get_id()] = l
+    memo.setdefault('caseorig', {})[l.get_id()] = c
+    return l
 
 
 def is_symstr(x):
@@ -649,6 +709,38 @@ def _simp(chars):
     return out
 
 
+CASE_REPRESENTATIVES = [
+    0xC0, 0xE0,        # À à   (+32 block)
+    0x100, 0x101,      # Ā ā   (alternating pairs)
+    0x3A3, 0x3C3, 0x3C2,  # Σ σ ς
+    0x212A,            # KELVIN SIGN -> k
+    0x17F,             # LONG S -> upper S
+    0x130, 0x131,      # İ ı
+    0xDF, 0x1E9E,      # ß ẞ
+    0x1C5, 0x1C4, 0x1C6,  # ǅ Ǆ ǆ
+    0xB5, 0x39C, 0x3BC,   # µ Μ μ
+    0x2126, 0x3C9, 0x3A9,  # Ω(ohm) ω Ω
+    0x212B, 0xE5, 0xC5,   # Å(angstrom) å Å
+    0x10400, 0x10428,  # Deseret (astral cased pair)
+]
+
+
+def reduced_alphabet():
+    """all code points except the non-ASCII cased letters (those changed by lower()/upper()),
+    of which a list of representatives covering every mapping shape is kept.  Used by the
+    whole-pipeline harnesses to keep the case-folding terms small; stated in their evidence."""
+    key = 'reduced_alphabet'
+    if key not in _tables:
+        ch = []
+        for kind in ('lower', 'upper'):
+            ranges, special, single = _case_ranges(kind)
+            ch.extend((c, c) for c in single if c >= 128)
+            ch.extend((c, c) for c in special if c >= 128)
+        excl = Mask(ch).minus(Mask((c, c) for c in CASE_REPRESENTATIVES))
+        _tables[key] = excl.neg()
+    return _tables[key]
+
+
 def fresh_str(n, prefix='c', mask=None):
     """a string of n symbolic code points (all of Unicode, or restricted to mask)"""
     e = eng()
@@ -656,7 +748,7 @@ def fresh_str(n, prefix='c', mask=None):
     for i in range(n):
         v = e.fresh_int(prefix, 0, MAXCP)
         if mask is not None:
-            e.assume(mask.formula(v))
+            e.assume(mask.formula(v), {v.get_id(): (v, mask)})
         ch.append(v)
     return SymStr(ch)
 
